@@ -374,7 +374,11 @@ class Pair:
                     if kind == U:
                         # destructors of other values: only user-controlled types may unwind
                         ty = body.local_ty(pl["l"]) if not pl["p"] else None
+                        if pl["p"] and isinstance(pl["p"][-1], dict) and isinstance(pl["p"][-1].get("t"), int):
+                            ty = body.types[pl["p"][-1]["t"]]        # dropping a field (a captured variable of an inlined async helper): its own type decides
                         if ty is not None and not self.unw.drop_may_unwind(ty, body.types):
+                            continue
+                        if t.get("env_drop") and not self._env_drop_may_unwind(body, t["env_drop"]):
                             continue
                     if tgt == EXIT_UNWIND:
                         viol.append(("unwind-exit", g.where(bb), path))
@@ -457,6 +461,21 @@ class Pair:
                     cc = Call(hg, i, t)
                     if cc.name in ("take", "replace", "swap") and any((a.get("move") or {}).get("l") in refs for a in cc.args):
                         return True
+        return False
+
+    def _env_drop_may_unwind(self, body, cdef):
+        """an inlined async helper dropping its own environment at its return: only the captured values are left"""
+        sites = self.tr.aggsites((body.crate.name, cdef))
+        if not sites:
+            return True
+        for (pb, bb, idx, rv) in sites:
+            for o in rv["ops"]:
+                pl = o.get("move") or o.get("copy")
+                if pl is None:
+                    continue
+                ty = pb.local_ty(pl["l"]) if not pl["p"] else (pb.types[pl["p"][-1]["t"]] if isinstance(pl["p"][-1], dict) and isinstance(pl["p"][-1].get("t"), int) else None)
+                if ty is None or self.unw.drop_may_unwind(ty, pb.types):
+                    return True
         return False
 
     def _tag_dataless(self, body, local, env):
